@@ -161,9 +161,12 @@ func extraC19(c *Ctx) {
 			}
 			// collated = append(collated, &msg)  |  collated[len-1].Content += ... msg.Content
 			if len(core.CallsTo(info, as.Rhs[0], false, "builtin.append")) == 1 && as.Tok == token.ASSIGN {
-				if id, isID := as.Lhs[0].(*ast.Ident); isID && id.Name != "system" {
-					collObj = info.Uses[id]
-					k++
+				if id, isID := as.Lhs[0].(*ast.Ident); isID {
+					// the collated list holds messages (the system list holds strings)
+					if sl, isSl := info.TypeOf(id).Underlying().(*types.Slice); isSl && core.ObjNameOfType(sl.Elem()) == "api.Message" {
+						collObj = info.Uses[id]
+						k++
+					}
 				}
 			}
 			if as.Tok == token.ADD_ASSIGN && selName(as.Lhs[0]) == "Content" && mentionsSel(as.Rhs[0], "Content") {
@@ -204,6 +207,7 @@ func extraC19(c *Ctx) {
 	c.Check("C19-R4", f.Key()+" merges only consecutive messages of the same role", c.Pos(loop), okRole, "")
 	// system collection: a top-level `if msg.Role == "system" { system = append(system, msg.Content) }`
 	okSys := false
+	var sysObj types.Object
 	skipped := false // a statement before the collection can leave the iteration
 	for _, st := range loop.Body.List {
 		is, ok := st.(*ast.IfStmt)
@@ -228,8 +232,12 @@ func extraC19(c *Ctx) {
 		}
 		for _, bs := range is.Body.List {
 			as, ok := bs.(*ast.AssignStmt)
-			if ok && len(as.Lhs) == 1 && core.ExprString(as.Lhs[0]) == "system" && len(core.CallsTo(info, as.Rhs[0], false, "builtin.append")) == 1 && mentionsSel(as.Rhs[0], "Content") {
-				okSys = true
+			if ok && len(as.Lhs) == 1 && len(core.CallsTo(info, as.Rhs[0], false, "builtin.append")) == 1 && mentionsSel(as.Rhs[0], "Content") {
+				// the collected list is what the function joins into its first result
+				if id, isID := as.Lhs[0].(*ast.Ident); isID {
+					sysObj = info.ObjectOf(id)
+					okSys = true
+				}
 			}
 		}
 	}
@@ -259,8 +267,12 @@ func extraC19(c *Ctx) {
 	okSys = okSys && !skipped
 	joined := false
 	for _, ex := range g.Returns() {
-		if len(ex.Return.Results) == 2 && len(core.CallsTo(info, ex.Return.Results[0], false, "strings.Join")) == 1 {
-			joined = true
+		if len(ex.Return.Results) == 2 {
+			for _, j := range core.CallsTo(info, ex.Return.Results[0], false, "strings.Join") {
+				if sysObj != nil && isIdentOf(info, j.Args[0], sysObj) {
+					joined = true
+				}
+			}
 		}
 	}
 	c.Check("C19-R4", f.Key()+" every system message reaches the system string", c.Pos(loop), okSys && joined, "the loop body must collect msg.Content of every system message before anything can leave the iteration (a merged system message must still reach .System)")
